@@ -239,3 +239,57 @@ def r_C14h(root):
                 for pr in ("C14", "C05"):
                     out.append(Finding(pr, "C14.h", M, "_end_model_construction", " ".join(ast.unparse(c).split())[:80], "attributes are applied to the user object while its record is still in _tx_obj_attrs: if the class is still instrumented (a nested / second load of the same metamodel is in progress) the write lands in the record, which is discarded afterwards — the object loses parent and every attribute its __init__ does not store itself", witness="user class whose __init__ ignores parent; main model that imports another model of the same metamodel"))
     return inst, out
+
+def r_C14d(root):
+    """C14.d  postponed __init__ (_end_model_construction): exactly one obj.__init__(**kw) call per object of the parser's
+       user-object list; kw is the collected record filtered to the names of the class's grammar attributes plus 'parent';
+       the call comes after the user classes' attribute methods were restored."""
+    import ast
+    from sa import sem
+    M = "textx/model.py"; out = []; inst = 0
+    fn = find_i(root, M, "_end_model_construction"); fi = sem.info(fn); cfg = fi.cfg
+    inits = [c for c in calls(fn, own=True) if isinstance(c.func, ast.Attribute) and c.func.attr == "__init__"]
+    inst += 1
+    W = "_end_model_construction"
+    if len(inits) != 1:
+        ob("C14", "C14.d", M, W, "%d __init__ calls" % len(inits), False)
+        out.append(Finding("C14", "C14.d", M, W, "%d calls of obj.__init__" % len(inits), "user objects are initialised %s" % ("never" if not inits else "more than once per object")))
+        return inst, out
+    c = inits[0]; ov = ast.unparse(c.func.value)
+    lp = next((a for a in ancestors(c) if isinstance(a, ast.For)), None)
+    ok = lp is not None and isinstance(lp.target, ast.Name) and lp.target.id == ov and "_user_class_inst" in fi.text(lp.iter, at=lp.iter) and not any(isinstance(a, (ast.For, ast.While)) for a in ancestors(c) if a is not lp and lp in list(ancestors(a)))
+    ob("C14", "C14.d", M, W, "one __init__ call per element of the parser's user-object list", ok)
+    if not ok: out.append(Finding("C14", "C14.d", M, W, " ".join(ast.unparse(c).split()), "the postponed __init__ is not called exactly once for each object of the parser's user-object list"))
+    # kwargs
+    inst += 1
+    kw = [k for k in c.keywords if k.arg is None]
+    okk = False; shown = ast.unparse(c)
+    if len(kw) == 1 and not c.args and len(c.keywords) == 1:
+        v = fi.expand(kw[0].value, at=c); shown = " ".join(ast.unparse(v).split())
+        def single_def(name_node, at):
+            nd = fi.node_of(at); ds = fi.rd.defs_of(nd, name_node.id) if nd is not None else []
+            if len(ds) == 1 and fi.cfg.nodes[ds[0]].kind == "stmt" and isinstance(fi.cfg.nodes[ds[0]].ast, ast.Assign): return fi.cfg.nodes[ds[0]].ast
+            return None
+        if isinstance(v, ast.Name):                      # `attrs = {k: v for k, v in attrs.items() if ...}`: the filter re-binds the record's name
+            d = single_def(v, c)
+            if d is not None:
+                v = d.value; shown = " ".join(ast.unparse(v).split())
+                if isinstance(v, ast.DictComp):
+                    src = next((x for x in ast.walk(v.generators[0].iter) if isinstance(x, ast.Name)), None)
+                    d0 = single_def(src, d) if src is not None else None
+                    if d0 is not None and "_tx_obj_attrs" in ast.unparse(d0.value): shown += "  [over " + " ".join(ast.unparse(d0.value).split()) + "]"
+        if isinstance(v, ast.DictComp) and len(v.generators) == 1 and len(v.generators[0].ifs) >= 1:
+            g = v.generators[0]; cond = " ".join(ast.unparse(ast.BoolOp(op=ast.And(), values=g.ifs) if len(g.ifs) > 1 else g.ifs[0]).split())
+            kn = g.target.elts[0].id if isinstance(g.target, ast.Tuple) and isinstance(g.target.elts[0], ast.Name) else None
+            parts = {x.strip() for x in cond.split(" or ")}
+            okk = kn is not None and ast.unparse(v.key) == kn and parts == {"%s in %s.__class__._tx_attrs" % (kn, ov), "%s == 'parent'" % kn} and ("_tx_obj_attrs" in ast.unparse(fi.expand(g.iter, at=c)) or "_tx_obj_attrs" in shown)
+    ob("C14", "C14.d", M, W, "__init__ keyword arguments: %s" % shown[:120], okk)
+    if not okk: out.append(Finding("C14", "C14.d", M, W, shown[:100], "the postponed __init__ does not receive exactly the collected values of the rule's attributes plus parent (filter: name in the class's _tx_attrs or name == 'parent')", witness="user class whose __init__ takes exactly the rule's attributes (and **kwargs-free)"))
+    # after restore
+    inst += 1
+    rest = [n for n in cfg.nodes if n.ast is not None and any(callee_name(x) == "_restore_user_attr_methods" for x in calls(n.ast))]
+    n = fi.node_of(c)
+    oka = bool(rest) and n is not None and not cfg.paths_avoiding(cfg.entry, n, lambda m: m in rest)
+    ob("C14", "C14.d", M, W, "__init__ runs after the attribute methods were restored", oka)
+    if not oka: out.append(Finding("C14", "C14.d", M, W, " ".join(ast.unparse(c).split()), "the postponed __init__ can run while the class's attribute methods are still the instrumented ones of this parser"))
+    return inst, out
